@@ -18,7 +18,7 @@ Definition m_thermow (w outw : nat) (x : N) : N := N_of_bits (thermo_lower w out
 Definition m_unthermo (n : nat) (x : N) : N := unthermo (bits_of_N n x).
 Definition m_grayenc (w : nat) (x : N) : N := N_of_bits (gray_encode (bits_of_N w x)).
 Definition m_graydec (w : nat) (x : N) : N := N_of_bits (gray_decode (bits_of_N w x)).
-Definition m_bpo2 (w : nat) (x : N) : option N := bpo2_gen (bits_of_N w x).
+Definition m_bpo2 (w : nat) (x : N) : N := bpo2 (bits_of_N w x).
 Definition m_ldivp (numW : nat) (denW steps : N) (trace : list (N * N)) : list (option N) :=
   map (ldiv_pipe numW denW steps (fun u => nth u trace (0, 0))) (seq 0 (length trace)).
 Definition m_addcs (w : nat) (a b c : N) : N * N :=
